@@ -18,13 +18,13 @@ RULE = ('(a) Library round trip through the harness: samples are built in memory
         '(in-memory route, k=17) against `ska build` + the same command on the file.  (c) Narrow files: for k in '
         '{33,35,37,41,51,63}, tables whose stored k-mers all fit in 64 bits (arms starting with enough A) next to ordinary '
         'rows-shifted copies; nk, align, map, distance, weed, delete and merge in both argument orders must agree with the '
-        'model, and nk must report k_bits=128.  Non-trivial: the file has at least one k-mer and (c) really fits in 64 bits; '
+        'model, and nk must report k_bits=128.  (d) One build/save/load/read-out per width under Miri (quick: k=33; thorough: k=9,31,33,63), compared with the native run.  Non-trivial: the file has at least one k-mer and (c) really fits in 64 bits; '
         'distinct = distinct (k, mode, input, operation).')
 ASSUMPTIONS = ['in-memory vs reloaded comparison is model-free; part (c) uses the reference model',
                'the harness reload mimics the command-line width dispatch (u64 first, then u128)']
 REQUIRED = {t: ['rt:nk', 'rt:align', 'rt:dist', 'rt:map', 'rt:vcf', 'rt:weed', 'rt:delete', 'cli:align', 'cli:map',
                 'narrow:nk', 'narrow:align', 'narrow:map', 'narrow:distance', 'narrow:weed', 'narrow:delete',
-                'narrow:merge-first', 'narrow:merge-second', 'narrow_files_fit_64_bits', 'multi_frame_files']
+                'narrow:merge-first', 'narrow:merge-second', 'narrow_files_fit_64_bits', 'multi_frame_files', 'miri_round_trips']
             for t in ('quick', 'thorough')}
 NARROW_K = [33, 35, 37, 41, 51, 63]
 
@@ -50,6 +50,8 @@ def plan(tier, seed, rng, scale):
         descs.append({'kind': 'narrow', 'k': rng.choice(NARROW_K), 'rc': rng.random() < 0.6, 'seed': rng.getrandbits(32)})
     for i, d in enumerate(descs):
         d['chk'] = d['kind'] == 'narrow' and i % 4 == 0
+    for k in ([33] if tier == 'quick' else [9, 31, 33, 63]):
+        descs.append({'kind': 'miri', 'k': k, 'seed': rng.getrandbits(32)})
     return descs
 
 
@@ -345,9 +347,39 @@ def run_narrow(desc, ctx, res):
         res.sample = {'kind': 'narrow file', 'k': k, 'rc': rcmode, 'arms_fitting_64_bits': list(rowsN)[:3], 'ordinary_arms': list(rowsW)[:2]}
 
 
+def run_miri(desc, ctx, res):
+    """One build -> save -> load -> read-out under the undefined-behaviour interpreter, compared with the native run."""
+    import subprocess
+    from .. import build
+    k = desc['k']
+    rng = random.Random(desc['seed'])
+    G.write_fa(ctx.path('m.fa'), [G.rseq(rng, k + 10)])
+    args = ['rt', 'disk', str(k), '1', ctx.path('m.skf'), 'nk', '--', ctx.path('m.fa')]
+    cmd, env, cwd = build.miri_cmd(args)
+    try:
+        p = subprocess.run(cmd, cwd=cwd, env=env, capture_output=True, text=True, timeout=1500)
+    except subprocess.TimeoutExpired:
+        raise Inconclusive('miri timed out')
+    if 'Undefined Behavior' in p.stderr:
+        res.violate('C09:miri', 'Miri reports undefined behaviour in build/save/load at k=%d: %s' % (k, p.stderr[-300:]), p.stderr[-3000:])
+        return
+    if p.returncode != 0:
+        raise Inconclusive('miri run failed: ' + p.stderr[-300:])
+    q = ctx.sh(ctx.bins['harness'], *args)
+    res.evals += 1
+    if q.returncode != 0 or norm('nk', p.stdout) != norm('nk', q.stdout):
+        res.violate('C09:miri-differs', 'k=%d: round trip under Miri differs from the native run' % k, {'miri': p.stdout[:2000], 'native': q.stdout[:2000]})
+    else:
+        res.count('miri_round_trips')
+        res.nontrivial.append(fingerprint(['miri', k, desc['seed']]))
+
+
 def run_case(desc, ctx):
     res = Result()
     res.see('k', desc.get('k', 17))
+    if desc['kind'] == 'miri':
+        run_miri(desc, ctx, res)
+        return res
     if desc['kind'] == 'rt':
         run_rt(desc, ctx, res)
     elif desc['kind'] == 'cli':
